@@ -325,3 +325,77 @@ def c10_erase(e):
     if scr.hit_top or scr.lines() != ["p%d" % i for i in range(p)]:
         return False
     return scr.row == p and scr.col == 0
+
+
+# --- writes through the redirected sys.stdout / sys.stderr, including a partial line still pending at stop() --------------
+def _mk_redirect(nops, tiers, timeout):
+    @symx("C10-redirected-writes-%dops" % nops, tiers=tiers, timeout=timeout, kind="P",
+          functions=F_L + ["rich/file_proxy.py:FileProxy.write", "rich/file_proxy.py:FileProxy.flush",
+                           "rich/live.py:Live._disable_redirect_io", "rich/progress.py:Progress.stop",
+                           "rich/progress.py:Progress._disable_redirect_io"],
+          bounds="Live / Progress (no refresh thread, 20x8 terminal) x transient x every history of %d operations from {console print, "
+                 "sys.stdout.write of a full line, sys.stdout.write without newline, sys.stderr.write without newline, new frame "
+                 "(height 0..2, refreshed) / add_task, refresh} then stop (solver-enumerated, native, replayed on the screen model): "
+                 "every completed line is on the screen in order, text still pending in a redirected stream at stop() appears as a "
+                 "printed line (the two streams in either order) above the final frame; no frame remnant; cursor visible; streams "
+                 "and hooks restored" % nops,
+          outside="CPython reference counting flushes the dropped proxy at once; other interpreters may flush later")
+    def h(e):
+        transient = bool(e.mkbool("transient"))
+        use_progress = bool(e.mkbool("progress"))
+        c = Console(file=io.StringIO(), force_terminal=True, width=20, height=8, color_system=None, legacy_windows=False,
+                    _environ={})
+        out0, err0 = sys.stdout, sys.stderr
+        printed, pend_out, pend_err = [], "", ""
+        if use_progress:
+            disp = Progress(TextColumn("{task.description}"), console=c, auto_refresh=False, transient=transient)
+            frame_lines = []
+        else:
+            disp = Live(frame("a", 1), console=c, auto_refresh=False, transient=transient)
+            frame_lines = ["a0"]
+        disp.start()
+        try:
+            for i in range(nops):
+                op = int(e.mk("op%d" % i, 0, 5))
+                if op == 0:
+                    c.print("p%d" % i)
+                    printed.append("p%d" % i)
+                elif op == 1:
+                    sys.stdout.write("w%d\n" % i)
+                    printed.append(pend_out + "w%d" % i)
+                    pend_out = ""
+                elif op == 2:
+                    sys.stdout.write("y%d" % i)
+                    pend_out += "y%d" % i
+                elif op == 3:
+                    sys.stderr.write("z%d" % i)
+                    pend_err += "z%d" % i
+                elif op == 4:
+                    if use_progress:
+                        disp.add_task("t%d" % i)
+                        disp.refresh()
+                        frame_lines = frame_lines + ["t%d" % i]
+                    else:
+                        hh = int(e.mk("h%d" % i, 0, 2))
+                        fr = frame("f%d_" % i, hh)
+                        disp.update(fr, refresh=True)
+                        frame_lines = fr.plain.split("\n") if fr.plain else []
+                else:
+                    disp.refresh()
+        finally:
+            disp.stop()
+        ok = sys.stdout is out0 and sys.stderr is err0 and not c._render_hooks
+        sys.stdout, sys.stderr = out0, err0
+        scr = Screen(8)
+        scr.feed(c.file.getvalue())
+        if not ok or not scr.cursor_visible or scr.hit_top:
+            return False
+        tail = [] if transient else list(frame_lines)
+        pend = [x for x in (pend_out, pend_err) if x]
+        got = scr.lines()
+        return any(got == printed + order + tail for order in ([pend, pend[::-1]] if len(pend) == 2 else [pend]))
+    return h
+
+
+_mk_redirect(2, ("quick", "thorough"), 600)
+_mk_redirect(4, ("thorough",), 3000)
